@@ -31,7 +31,8 @@ which list slots are rebound).  They are *not* derived from the Python source by
 this model only by the differential correspondence of `./check C19`: after every step of random histories the
 set of changed pool slots (byte-level snapshots of all objects) and the `np.shares_memory` relation must equal the
 model's prediction "only the target changes, nothing is shared", and the write/alias table `Heap.spec` is
-compared call by call.  Operator graphs, TDVP and DMRG are covered by the table `Heap.spec` only (not by `step`).
+compared call by call.  `from_vector`, TDVP and DMRG are operations of `step` (`tdvp_H_unchanged`: the Hamiltonian slot
+is never written); operator graphs are covered by the table `Heap.spec` only.
 -/
 set_option linter.unusedSectionVars false
 namespace Ptn.C19
@@ -52,11 +53,18 @@ def HOp.fn : HOp α ρ → String
   | .apply _ _ => "apply_operator"
   | .zeroQ _ => "MPS.zero_qnumbers"
   | .copy _ => "copy"
+  | .fromVector _ _ _ _ => "from_vector"
+  | .tdvp1 _ _ _ _ _ => "integrate_local_singlesite"
+  | .tdvp2 _ _ _ _ _ _ => "integrate_local_twosite"
+  | .dmrg1 _ _ _ _ => "calculate_ground_state_local_singlesite"
+  | .dmrg2 _ _ _ _ _ => "calculate_ground_state_local_twosite"
 
 /-- positional arguments (pool slots) of the call, in the order of the Python signature -/
 def HOp.args : HOp α ρ → List Nat
   | .orthoMps i _ | .orthoMpo i _ | .compress i _ _ | .zeroQ i | .copy i => [i]
   | .addMps i j _ | .addMpo i j _ | .mulMpo i j | .apply i j => [i, j]
+  | .fromVector _ _ _ _ => []
+  | .tdvp1 iH i _ _ _ | .tdvp2 iH i _ _ _ _ | .dmrg1 iH i _ _ | .dmrg2 iH i _ _ _ => [iH, i]
 
 /-- **(3)** `HOp.target` is what the ownership table says: the slots a call may overwrite are the arguments listed in
 `(Heap.spec fn).writes` — argument 0 for `orthonormalize`, `compress`, `zero_qnumbers`, none for `+`, `-`, `@`,
@@ -261,8 +269,8 @@ theorem alloc_frame (s : HState) (op : HOp α ρ) (n : Nat) (keep : List Nat →
 
 /-! ## (1) frame of one call -/
 
-variable [OfNat α 0] [OfNat α 1] [Add α] [Mul α] [Neg α] [DecidableEq α] [HasConj α]
-  [RealLike ρ α] [OfNat ρ 0] [OfNat ρ 1] [Add ρ] [Mul ρ] [Div ρ] [Neg ρ] [LT ρ] [DecidableEq ρ] [DecidableLT ρ]
+variable [OfNat α 0] [OfNat α 1] [Add α] [Mul α] [Sub α] [Neg α] [Div α] [DecidableEq α] [HasConj α]
+  [RealLike ρ α] [OfNat ρ 0] [OfNat ρ 1] [Add ρ] [Mul ρ] [Div ρ] [Neg ρ] [NatCast ρ] [LT ρ] [DecidableEq ρ] [DecidableLT ρ]
 
 /-- shape of a successful step: either the target slot is overwritten (`List.set`) or one object is appended -/
 theorem step_shape {k : StepKernels α ρ} {p p' : Pool α} {op : HOp α ρ} {out : List ρ}
@@ -353,6 +361,54 @@ theorem step_shape {k : StepKernels α ρ} {p p' : Pool α} {op : HOp α ρ} {ou
       exact .inr ⟨_, rfl, h.1.symm⟩
     · simp at h
 
+  | fromVector d nsites v tol =>
+    simp only [step] at h
+    cases hr : MPS.fromVector k.svd d nsites v tol with
+    | error e => simp [hr, bind, Except.bind] at h
+    | ok r =>
+      simp only [hr, bind, Except.bind, pure, Except.pure, Except.ok.injEq, Prod.mk.injEq] at h
+      exact .inr ⟨_, rfl, h.1.symm⟩
+  | tdvp1 iH i dt ns ni =>
+    simp only [step] at h
+    split at h
+    · rename_i H ψ _ hp
+      cases hr : Evo.integrateLocalSinglesite k.evo H ψ dt ns ni with
+      | error e => simp [hr, bind, Except.bind] at h
+      | ok r =>
+        simp only [hr, bind, Except.bind, pure, Except.pure, Except.ok.injEq, Prod.mk.injEq] at h
+        exact .inl ⟨i, _, rfl, (List.getElem?_eq_some_iff.1 hp).1, h.1.symm⟩
+    · simp at h
+  | tdvp2 iH i dt ns ni tol =>
+    simp only [step] at h
+    split at h
+    · rename_i H ψ _ hp
+      cases hr : Evo.integrateLocalTwosite k.evo H ψ dt ns ni tol with
+      | error e => simp [hr, bind, Except.bind] at h
+      | ok r =>
+        simp only [hr, bind, Except.bind, pure, Except.pure, Except.ok.injEq, Prod.mk.injEq] at h
+        exact .inl ⟨i, _, rfl, (List.getElem?_eq_some_iff.1 hp).1, h.1.symm⟩
+    · simp at h
+  | dmrg1 iH i ns ni =>
+    simp only [step] at h
+    split at h
+    · rename_i H ψ _ hp
+      cases hr : Evo.dmrgSinglesite k.evo H ψ ns ni with
+      | error e => simp [hr, bind, Except.bind] at h
+      | ok r =>
+        simp only [hr, bind, Except.bind, pure, Except.pure, Except.ok.injEq, Prod.mk.injEq] at h
+        exact .inl ⟨i, _, rfl, (List.getElem?_eq_some_iff.1 hp).1, h.1.symm⟩
+    · simp at h
+  | dmrg2 iH i ns ni tol =>
+    simp only [step] at h
+    split at h
+    · rename_i H ψ _ hp
+      cases hr : Evo.dmrgTwosite k.evo H ψ ns ni tol with
+      | error e => simp [hr, bind, Except.bind] at h
+      | ok r =>
+        simp only [hr, bind, Except.bind, pure, Except.pure, Except.ok.injEq, Prod.mk.injEq] at h
+        exact .inl ⟨i, _, rfl, (List.getElem?_eq_some_iff.1 hp).1, h.1.symm⟩
+    · simp at h
+
 /-- **(1)** Frame of one call: the pool grows by at most one slot (the returned object) and every slot other than
 the documented target holds the same value afterwards — in particular all arguments of `+`, `-`, `@`,
 `apply_operator`, copy, and the non-target arguments of every call. -/
@@ -386,6 +442,38 @@ theorem step_target_lt {k : StepKernels α ρ} {p p' : Pool α} {op : HOp α ρ}
     exact hl
   · rw [ht] at ht'
     cases ht'
+
+/-- the Hamiltonian slot of a TDVP / DMRG call -/
+def HOp.hamiltonian : HOp α ρ → Option Nat
+  | .tdvp1 iH _ _ _ _ | .tdvp2 iH _ _ _ _ _ | .dmrg1 iH _ _ _ | .dmrg2 iH _ _ _ _ => some iH
+  | _ => none
+
+/-- **(1')** `tdvp_H_unchanged`: the in-place algorithms (`integrate_local_*`, `calculate_ground_state_local_*`)
+overwrite only the state: the Hamiltonian slot holds the same value afterwards (whenever it is not also the slot of
+the state, which cannot be since one is an MPO and the other an MPS — see `evo_slots_ne`). -/
+theorem tdvp_H_unchanged {k : StepKernels α ρ} {p p' : Pool α} {op : HOp α ρ} {out : List ρ}
+    (h : step k p op = .ok (p', out)) {iH : Nat} (hH : HOp.hamiltonian op = some iH) (hne : op.target ≠ some iH) :
+    p'[iH]? = p[iH]? := by
+  rcases step_shape h with ⟨t, o, ht, _, rfl⟩ | ⟨o, ht, rfl⟩
+  · rw [List.getElem?_set_ne]
+    intro e
+    exact hne (by rw [ht, e])
+  · cases op <;> simp [HOp.hamiltonian, HOp.target] at hH ht
+
+/-- in a successful TDVP / DMRG call the Hamiltonian and the state are different slots (an MPO and an MPS) -/
+theorem evo_slots_ne {k : StepKernels α ρ} {p p' : Pool α} {op : HOp α ρ} {out : List ρ}
+    (h : step k p op = .ok (p', out)) {iH : Nat} (hH : HOp.hamiltonian op = some iH) : op.target ≠ some iH := by
+  intro ht
+  cases op <;> simp only [HOp.hamiltonian, HOp.target, Option.some.injEq, reduceCtorEq] at hH ht
+  all_goals
+    subst hH
+    subst ht
+    simp only [step] at h
+    split at h
+    · rename_i h1 h2
+      rw [h1] at h2
+      cases h2
+    · cases h
 
 /-! ## (2) frame of a history -/
 
@@ -446,7 +534,8 @@ def exPsi : MPS Rat := ⟨[0, 1], [[0], [1]], [⟨2, 1, 1, fun s _ _ => if s = 1
 def exOp : MPO Rat := ⟨[0, 1], [[0], [0]], [⟨2, 2, 1, 1, fun s t _ _ => if s = t then 1 else 0⟩]⟩
 def exPool : Pool Rat := [.mps exPsi, .mpo exOp]
 def exK : StepKernels Rat Rat :=
-  ⟨fun B => (B, B), ⟨fun B => (B, [], B), fun _ => 0, fun _ => []⟩, fun x => x, fun x _ => x⟩
+  ⟨fun B => (B, B), ⟨fun B => (B, [], B), fun _ => 0, fun _ => []⟩, fun x => x, fun x _ => x,
+    fun x => x, fun _ => 0, fun a _ => (a, ⟨0, 0, fun _ _ => 0⟩), fun x => x, fun M => M, 0⟩
 def exHist : History Rat Rat := [(exK, .copy 0), (exK, .zeroQ 2)]
 
 example : ∃ p', run exPool exHist = .ok p' ∧ p'.length = 3 ∧ p'[0]? = exPool[0]? ∧ p'[1]? = exPool[1]? ∧
